@@ -1379,6 +1379,11 @@ def c11_programs(backend):
         ("Select(EventDataset('ds'), lambda e: e.PRIM('A').Select(lambda j: j.scaled()))", [meth]),
         ("Select(EventDataset('ds'), lambda e: e.PRIM('A').Select(lambda j: DeltaR(j.eta(), j.phi(), 1.0)))", []),
     ]
+    if backend != "atlas":
+        bad += [
+            ("Select(EventDataset('ds'), lambda e: e.PRIM('A').Select(lambda m: m.isNonnull(m.globalTrack())))", []),      # method style: the receiver would be dropped
+            ("Select(EventDataset('ds'), lambda e: e.PRIM('A').Select(lambda m: isNonnull(m.globalTrack(), m)))", []),
+        ]
     for q, fns in bad:
         prog(q, fns, tags=("must_raise", "cppfn"))
     return out
